@@ -1000,6 +1000,19 @@ func classifyCorsFacts(p *Program, fn *ssa.Function, fs map[condFact]bool, preds
 	allowed, refused, noOrigin := false, false, false
 	optFalse, optTrue := false, false // Method == OPTIONS known true / false
 	acrm, noAcrm := false, false
+	// a condition tested in a boolean helper (`isPreflightRequest(req)`) holds here when the helper said so
+	ext := map[condFact]bool{}
+	for f := range fs {
+		ext[f] = true
+		if call, ok := f.Cond.(*ssa.Call); ok {
+			if _, isOrigin := originAllowedFact(p, f, preds); !isOrigin {
+				for g := range calleeImpliedFacts(p, call, f.Pol) {
+					ext[g] = true
+				}
+			}
+		}
+	}
+	fs = ext
 	for f := range fs {
 		if req, ok := originAllowedFact(p, f, preds); ok && p.sameValue(req, rq) {
 			if f.Pol {
